@@ -409,7 +409,10 @@ def _cell(kind, rnd, f):
         return {'t': 't', 'v': [rnd.randint(1990, 2030), rnd.randint(1, 12), rnd.randint(1, 28),
                                 rnd.randint(0, 23), rnd.randint(0, 59), rnd.randint(0, 59)]}
     if kind == 'bd':
-        return _cell(rnd.choice(['bool', 'date', 'str', 'num']), rnd, f)
+        k = rnd.choice(['bool', 'date', 'str', 'num'])
+        if k == 'num':         # moderate numbers only: next to an integer beyond 64 bits pandas turns a
+            return {'t': 'n', 'v': to_dec(round(rnd.uniform(-500, 4000), rnd.choice([0, 2])))}   # boolean into None
+        return _cell(k, rnd, f)
     if kind == 'numstr':                   # text that looks like a number; the column is read with dtype=str
         return {'t': 's', 'v': codes(_pad(rnd.choice(['12', '007', '1.50', '3e2', '-4', '0']), rnd))}
     if kind == 'formula':
